@@ -146,6 +146,12 @@ class C17(Plugin):
         for e, v, m in itertools.product(self.ENTRIES, self.VERSIONS, self.METHODS):
             for u in ("https://example.test/p?q=1", "/rel", "example.test:443"):
                 cases.append([e, "duplex", "yes", "good", "h11", "h2", m, v, u, [], 0])
+        # caller-set Host headers on relative / asterisk / absolute URIs, every version x entry, plain and TLS+h2
+        for e, v in itertools.product(self.ENTRIES, self.VERSIONS):
+            for u in ("/rel", "*", "/rel?x=1", "https://example.test/p"):
+                for hs in ([["host", "override.test"]], [["Host", "a"], ["host", "b"]], [["host", "h:1"]]):
+                    cases.append([e, "duplex", "no", "good", "none", "none", "GET", v, u, hs, 0])
+                    cases.append([e, "duplex", "yes", "good", "h2", "h2", "POST", v, u, hs, 1])
         # every URI of the grammar's host x scheme table once, through a random entry (thorough: through all)
         for s, h in itertools.product(self.SCHEMES, self.HOSTS):
             for e in (self.ENTRIES if tier != "quick" else [rng.choice(self.ENTRIES)]):
